@@ -463,6 +463,7 @@ class TorrentFile(MetaFile, ProgMixin):
 
         if os.path.isfile(self.path):
             info["length"] = size
+            kws["align"] = False
         elif not self.align:
             info["files"] = [{
                 "length":
@@ -480,10 +481,7 @@ class TorrentFile(MetaFile, ProgMixin):
                     "path":
                     os.path.relpath(path, self.path).split(os.sep),
                 })
-                if filesize < self.piece_length:
-                    remainder = self.piece_length - filesize
-                else:
-                    remainder = filesize % self.piece_length
+                remainder = -filesize % self.piece_length
                 if remainder:
                     info["files"].append({
                         "attr": "p",
